@@ -1000,7 +1000,8 @@ FileNameCase ==
                P2 == MkP(<<PV("num", FnPool[k])>>, {}, -1, <<>>)
            IN  c' = [kind |-> "fname", id |-> <<i, k>>, v1 |-> FnPool[i], v2 |-> FnPool[k],
                      template |-> TemplateText(FnTemplate),
-                     n1 |-> FileName(FnTemplate, P1), n2 |-> FileName(FnTemplate, P2)]
+                     n1 |-> FileName(FnTemplate, P1), n2 |-> FileName(FnTemplate, P2),
+                     rel |-> IF FnPool[i].t = "NpBool" \/ FnPool[k].t = "NpBool" THEN {"NpBoolRaises"} ELSE {}]
 
 Init == c = [kind |-> "init"]
 Next == ValueCase \/ ParamsCase \/ ResultCase \/ ResultsCase \/ FieldsCase \/ SaveHistCase \/ FileNameCase \/ FineCase \/ LimitCase
